@@ -17,7 +17,7 @@ def plan(tier, seed):
         eng = build.binpath("asan" if asan else "opt", "texel")
         if quick:
             cls = _c04.THREE + ([] if asan else [_c04.FOUR[(i * 3 + j + seed * 11) % 36] for j in range(3)])
-            args = ["--cases", 5 if asan else 9, "--max-roots", 10, "--wait-ms", 90000, "--answer-ms", 60000]
+            args = ["--cases", 8 if asan else 20, "--max-roots", 10, "--wait-ms", 90000, "--answer-ms", 60000]
         else:
             cls = _c04.THREE + (_c04.FOUR[(i * 5) % 36:(i * 5) % 36 + 3] if asan else _c04.FOUR[(i * 7) % 36:] + _c04.FOUR[:(i * 7) % 36])[:12 if not asan else 3]
             args = ["--cases", 25 if asan else 160, "--max-roots", 12, "--wait-ms", 300000, "--answer-ms", 120000]
@@ -34,10 +34,10 @@ def plan(tier, seed):
               "class changes with probability 1/4 per root (regeneration; both colour assignments are separate classes) and sometimes 5-6 non-tablebase "
               "roots are searched in between (the engine drops its table). Each root: 'go infinite', wait for 'info depth 3' (iteration 2 complete) or an "
               "exact 'mate 1' at depth 2, 'stop'. Non-trivial = root (distinct by FEN, configuration and table history) with DTM >= 3 moves or hmc >= 60."),
-        floors=({"tablebase roots searched": 500, "non-trivial root (DTM >= 3 or hmc >= 60)": 350, "root won, mate inside the 50-move limit": 60,
-                 "root lost, mate inside the 50-move limit": 100, "root drawn": 40, "root beyond the 50-move limit, class without zeroing moves": 12,
-                 "reuse of the resident table": 250, "class switch": 40, "first table of the process": 100, "Threads > 1": 150,
-                 "Hash 8": 80, "Hash 16": 80, "Hash 64": 80} if quick else
+        floors=({"tablebase roots searched": 1000, "non-trivial root (DTM >= 3 or hmc >= 60)": 700, "root won, mate inside the 50-move limit": 150,
+                 "root lost, mate inside the 50-move limit": 200, "root drawn": 100, "root beyond the 50-move limit, class without zeroing moves": 25,
+                 "reuse of the resident table": 500, "class switch": 100, "first table of the process": 200, "Threads > 1": 300,
+                 "Hash 8": 150, "Hash 16": 150, "Hash 64": 150} if quick else
                 {"tablebase roots searched": 12000, "non-trivial root (DTM >= 3 or hmc >= 60)": 8000, "root drawn": 1000,
                  "root beyond the 50-move limit, class without zeroing moves": 500, "class switch": 1500, "regeneration after the table was dropped": 50}),
         assumptions=["oracle: refdtm tables (own retrograde generator, validated in-process by the minimax recurrence over refchess successors and literature maxima); "
